@@ -725,7 +725,31 @@ def minimal_adapter_read(ctx, pr):
         def quad(self, terms):
             return ("stmt", tuple(terms))
 
+    class SubjectsOnlyAdapter(MinimalAdapter):
+        """takes the first term of every statement and leaves the rest of the iterable alone"""
+
+        def triple(self, terms):
+            return ("subject", next(iter(terms)))
+
+        quad = triple
+
     want = [e for e in T.norm_events(pr.events) if e[0] == "stmt"]
+    # (a) an adapter that does not consume all the terms it is handed: the reader's own cursors must move all the same
+    subjects = []
+    try:
+        opts, frames = get_options_and_frames(_io.BytesIO(pr.data))
+        dec = Decoder(adapter=SubjectsOnlyAdapter(opts))
+        for fr in frames:
+            for item in dec.iter_rows(fr):
+                if isinstance(item, tuple) and item and item[0] == "subject":
+                    subjects.append(T.norm_event(("stmt", (item[1],)))[1][0])
+    except Exception as e:  # noqa: BLE001
+        ctx.observe(f"custom-adapter-reader-refused:{type(e).__name__}")
+    want_subjects = [e[1][0] for e in want]
+    if subjects != want_subjects[:len(subjects)]:
+        i = next((k for k, (a, b) in enumerate(zip(subjects, want_subjects)) if a != b), len(want_subjects))
+        return (f"a reader built on a user-written Adapter that takes only the FIRST term of each statement delivered subject "
+                f"{subjects[i] if i < len(subjects) else None} for statement {i}, the writer meant {want_subjects[i] if i < len(want_subjects) else 'nothing more'}")
     got = []
     try:
         opts, frames = get_options_and_frames(_io.BytesIO(pr.data))
